@@ -397,3 +397,33 @@ package fontscan
 //@   loop 1 invariant [entry-header] ff.modTime == modTime && modTime == mtimeOf(info) && len(fa.dst) == old(len(fa.dst))
 //@   ensures [reuse-only-if-unchanged] implies(result == nil && old(has(fa.previousIndex, path)) && old(fa.previousIndex[path].modTime) == mtimeOf(info), sameslice(fa.dst[len(fa.dst)-1].footprints, old(fa.previousIndex[path].footprints)))
 //@   modifies unspecified
+//
+// ---------------------------------------------------------------------------------------------
+// Property C11, clause "its script set is exactly the set of scripts of those runes" (direction: no script is
+// missed). scriptsFromRanges walks the sorted rune ranges and the sorted script table together; the script of a rune
+// r is the Script of the table entry containing r (language.LookupScript's contract), so "entry j intersects range k"
+// is "some rune of range k has script ScriptRanges[j].Script".
+// The set itself is abstract here: inSet is uninterpreted and ScriptSet.insert (sort.Search with a closure, outside
+// the subset) is TRUSTED to add its argument and keep every member.
+//@ opaque inSet(ss ScriptSet, s language.Script) bool
+//@ trusted ScriptSet.insert
+//@   ensures [inserted] inSet(*ss, newScript)
+//@   ensures [keeps-members] forallV(s, newScript, old(inSet(*ss, s)), implies(old(inSet(*ss, s)), inSet(*ss, s)))
+//@   modifies *ss; all(language.Script)
+//
+//@ spec hits(lo rune, hi rune, j int) bool = language.ScriptRanges[j].Start <= hi && lo <= language.ScriptRanges[j].End
+//@ spec tableSorted() bool = forall(k, 0, len(language.ScriptRanges), language.ScriptRanges[k].Start <= language.ScriptRanges[k].End && forall(l, k+1, len(language.ScriptRanges), language.ScriptRanges[k].End < language.ScriptRanges[l].Start))
+//@ func scriptsFromRanges C11
+//@   mode int
+//@   requires [data-scriptRangesSorted] tableSorted()
+//@   requires [ranges-sorted] forall(k, 0, len(ranges), ranges[k][0] <= ranges[k][1] && forall(l, k+1, len(ranges), ranges[k][1] < ranges[l][0]))
+//@   ensures [no-script-missed] forall(k, 0, len(ranges), forall(j, 0, len(language.ScriptRanges), implies(hits(ranges[k][0], ranges[k][1], j), inSet(result, language.ScriptRanges[j].Script))))
+//@   modifies unspecified
+//@   loop 1 invariant [idx] 0 <= indexS && indexS <= len(language.ScriptRanges)
+//@   loop 1 invariant [done] forall(k, 0, rangeindex+1, forall(j, 0, len(language.ScriptRanges), implies(hits(ranges[k][0], ranges[k][1], j), inSet(out, language.ScriptRanges[j].Script))))
+//@   loop 1 invariant [passed] forall(j, 0, indexS, inSet(out, language.ScriptRanges[j].Script) || rangeindex+1 >= len(ranges) || language.ScriptRanges[j].End < ranges[rangeindex+1][0])
+//@   loop 2 invariant [idx] 0 <= indexS && indexS <= len(language.ScriptRanges)
+//@   loop 2 invariant [passed] forall(j, 0, indexS, inSet(out, language.ScriptRanges[j].Script) || language.ScriptRanges[j].End < start)
+//@   loop 3 invariant [idx] 0 <= indexS && indexS <= len(language.ScriptRanges)
+//@   loop 3 invariant [passed] forall(j, 0, indexS, inSet(out, language.ScriptRanges[j].Script) || language.ScriptRanges[j].End < start)
+//@   loop 3 invariant [done] forall(k, 0, rangeindex, forall(j, 0, len(language.ScriptRanges), implies(hits(ranges[k][0], ranges[k][1], j), inSet(out, language.ScriptRanges[j].Script))))
